@@ -604,6 +604,9 @@ func (be *boundsEngine) inferContracts(fns []*ssa.Function) {
 			p := be.prover(fn)
 			var reqs []reqItem
 			core.EachInstr(fn, func(b *ssa.BasicBlock, _ int, in ssa.Instruction) {
+				if afterNoReturn(in) {
+					return
+				}
 				var obs []obligation
 				obs = append(obs, siteObligations(p, in)...)
 				if call, ok := in.(ssa.CallInstruction); ok {
@@ -814,6 +817,9 @@ func trivialSite(p *core.Prover, obs []obligation) bool {
 
 func r01a(c *core.Ctx) { runBounds(c, "network") }
 
+// r18f: the same engine over the functions reachable only from start-up / configuration loading.
+func r18f(c *core.Ctx) { runBounds(c, "config") }
+
 var engineMemo = map[*core.Ctx]*boundsEngine{}
 
 // engineFor builds (once per run) the contract-inference engine over the network and configuration closures.
@@ -854,6 +860,21 @@ func engineFor(c *core.Ctx) *boundsEngine {
 	return be
 }
 
+// afterNoReturn: an earlier instruction of the same block calls a module function that has no return instruction.
+func afterNoReturn(in ssa.Instruction) bool {
+	for _, x := range in.Block().Instrs {
+		if x == in {
+			return false
+		}
+		if call, ok := x.(*ssa.Call); ok {
+			if f := core.StaticCallee(call); f != nil && f.Blocks != nil && core.ModuleFn(f) && len(returnsOf(f)) == 0 {
+				return true
+			}
+		}
+	}
+	return false
+}
+
 // runBounds checks every bounds obligation of the functions in scope.
 func runBounds(c *core.Ctx, scope string) {
 	be := engineFor(c)
@@ -881,6 +902,9 @@ func runBounds(c *core.Ctx, scope string) {
 		}
 		seq := map[string]int{}
 		core.EachInstr(fn, func(b *ssa.BasicBlock, _ int, in ssa.Instruction) {
+			if afterNoReturn(in) {
+				return // follows, in its block, a call of a function that never returns (platform stub): unreachable
+			}
 			var obs []obligation
 			obs = append(obs, siteObligations(p, in)...)
 			if call, ok := in.(ssa.CallInstruction); ok {
